@@ -30,7 +30,7 @@ from ..engine import (
     walk_no_nested,
 )
 from ..engine import _attach_parents
-from ..normal import clone, nfunc
+from ..normal import clone, nfunc, normalize
 from ..report import Report
 
 EXP = "semantiva/contracts/expectations.py"
@@ -375,6 +375,471 @@ def _in_handler(fn: ast.AST, node: ast.AST) -> bool:
     return any(isinstance(a, ast.ExceptHandler) for a in ancestors(node))
 
 
+# --------------------------------------------------------------------------- round 3: catalogue applicability (SVA250)
+class _Unknown(Exception):
+    """The abstract evaluator met an expression it has no facts for."""
+
+
+class _AbsClass:
+    """A class known by the names along its MRO only."""
+
+    def __init__(self, names: List[str]):
+        self.names = list(names)
+
+    def attr(self, name: str):
+        if name in ("__name__", "__qualname__"):
+            return self.names[0]
+        if name == "__mro__":
+            return tuple(_AbsClass(self.names[i:]) for i in range(len(self.names)))
+        if name == "__bases__":
+            return tuple(_AbsClass(self.names[i:]) for i in range(1, min(2, len(self.names))))
+        raise _Unknown(f"attribute {name} of the generated class")
+
+
+def abs_eval(e: ast.AST, env: Dict[str, object], fn: ast.AST, _depth: int = 0):
+    """Value of a side-effect-free expression over abstract facts (`md` a dict with the declared component_type, `cls`
+    an _AbsClass); three-valued: raises _Unknown where the facts do not decide it.  Nothing of the repo is executed."""
+    if _depth > 40:
+        raise _Unknown("depth")
+    ev = lambda x, en=env: abs_eval(x, en, fn, _depth + 1)  # noqa: E731
+    if isinstance(e, ast.Constant):
+        return e.value
+    if isinstance(e, ast.Name):
+        if e.id in env:
+            return env[e.id]
+        vals = assigned_value(fn, e.id)
+        if len(vals) == 1:
+            return ev(vals[0])
+        raise _Unknown(f"name {e.id}")
+    if isinstance(e, (ast.Set, ast.Tuple, ast.List)):
+        vals = [ev(x) for x in e.elts]
+        return frozenset(vals) if isinstance(e, ast.Set) else tuple(vals)
+    if isinstance(e, ast.NamedExpr):
+        return ev(e.value)
+    if isinstance(e, ast.UnaryOp) and isinstance(e.op, ast.Not):
+        return not ev(e.operand)
+    if isinstance(e, ast.BoolOp):
+        is_and = isinstance(e.op, ast.And)
+        unknown: Optional[_Unknown] = None
+        last: object = is_and
+        for x in e.values:
+            try:
+                last = ev(x)
+            except _Unknown as u:
+                unknown = u
+                continue
+            if bool(last) != is_and:
+                return last  # the deciding operand: the others do not matter (no side effects in a test)
+        if unknown is not None:
+            raise unknown
+        return last
+    if isinstance(e, ast.IfExp):
+        return ev(e.body) if ev(e.test) else ev(e.orelse)
+    if isinstance(e, ast.Compare):
+        left = ev(e.left)
+        for op, right_e in zip(e.ops, e.comparators):
+            right = ev(right_e)
+            if isinstance(op, (ast.In, ast.NotIn)):
+                if isinstance(right, _AbsClass) or not hasattr(right, "__contains__"):
+                    raise _Unknown("membership in a non-container")
+                if isinstance(right, dict) and left not in right:
+                    raise _Unknown("key of the metadata dict that the template facts do not fix")
+                res = left in right
+                res = res if isinstance(op, ast.In) else not res
+            elif isinstance(op, (ast.Eq, ast.NotEq)):
+                if isinstance(left, _AbsClass) or isinstance(right, _AbsClass):
+                    raise _Unknown("class identity")
+                res = (left == right) if isinstance(op, ast.Eq) else (left != right)
+            elif isinstance(op, (ast.Is, ast.IsNot)):
+                if left is not None and right is not None:
+                    raise _Unknown("identity")
+                res = (left is right) if isinstance(op, ast.Is) else (left is not right)
+            else:
+                raise _Unknown("comparison operator")
+            if not res:
+                return False
+            left = right
+        return True
+    if isinstance(e, ast.Subscript) and isinstance(e.slice, ast.Constant):
+        base = ev(e.value)
+        if isinstance(base, dict) and e.slice.value in base:
+            return base[e.slice.value]
+        raise _Unknown("subscript")
+    if isinstance(e, ast.Attribute):
+        base = ev(e.value)
+        if isinstance(base, _AbsClass):
+            return base.attr(e.attr)
+        raise _Unknown(f"attribute {e.attr}")
+    if isinstance(e, (ast.ListComp, ast.SetComp, ast.GeneratorExp)) and len(e.generators) == 1 and isinstance(e.generators[0].target, ast.Name):
+        g = e.generators[0]
+        items = []
+        for item in ev(g.iter):
+            en = dict(env)
+            en[g.target.id] = item
+            if all(abs_eval(c, en, fn, _depth + 1) for c in g.ifs):
+                items.append(abs_eval(e.elt, en, fn, _depth + 1))
+        return frozenset(items) if isinstance(e, ast.SetComp) else tuple(items)
+    if isinstance(e, ast.Call):
+        fname = e.func.id if isinstance(e.func, ast.Name) else None
+        if fname == "isinstance" and len(e.args) == 2:
+            v = ev(e.args[0])
+            kinds = {dotted_name(x) for x in (e.args[1].elts if isinstance(e.args[1], ast.Tuple) else [e.args[1]])}
+            if isinstance(v, dict) and kinds & {"dict", "Mapping", "collections.abc.Mapping", "abc.Mapping", "MutableMapping"}:
+                return True
+            if v is None:
+                return False
+            raise _Unknown("isinstance")
+        if fname == "issubclass" and len(e.args) == 2:
+            v = ev(e.args[0])
+            kinds = [dotted_name(x) for x in (e.args[1].elts if isinstance(e.args[1], ast.Tuple) else [e.args[1]])]
+            if isinstance(v, _AbsClass) and all(kinds):
+                return any(str(k).split(".")[-1] in v.names for k in kinds)
+            raise _Unknown("issubclass")
+        if fname == "getattr" and len(e.args) >= 2 and isinstance(e.args[1], ast.Constant):
+            base = ev(e.args[0])
+            if isinstance(base, _AbsClass):
+                try:
+                    return base.attr(e.args[1].value)
+                except _Unknown:
+                    raise
+            raise _Unknown("getattr")
+        if fname in ("set", "frozenset", "tuple", "list", "sorted") and len(e.args) <= 1 and not e.keywords:
+            vals = tuple(ev(e.args[0])) if e.args else ()
+            return frozenset(vals) if fname in ("set", "frozenset") else vals
+        if fname in ("any", "all") and len(e.args) == 1:
+            a = e.args[0]
+            if isinstance(a, (ast.GeneratorExp, ast.ListComp, ast.SetComp)) and len(a.generators) == 1 and isinstance(a.generators[0].target, ast.Name):
+                g = a.generators[0]
+                results = []
+                unknown = None
+                for item in ev(g.iter):
+                    en = dict(env)
+                    en[g.target.id] = item
+                    try:
+                        if not all(abs_eval(c, en, fn, _depth + 1) for c in g.ifs):
+                            continue
+                        results.append(bool(abs_eval(a.elt, en, fn, _depth + 1)))
+                    except _Unknown as u:
+                        unknown = u
+                if fname == "any" and any(results):
+                    return True
+                if fname == "all" and not all(results):
+                    return False
+                if unknown is not None:
+                    raise unknown
+                return fname == "all"
+            return (any if fname == "any" else all)(bool(x) for x in ev(a))
+        if fname in ("len",) and len(e.args) == 1:
+            return len(ev(e.args[0]))
+        if fname == "bool" and len(e.args) == 1:
+            return bool(ev(e.args[0]))
+        if isinstance(e.func, ast.Attribute) and e.func.attr == "get" and 1 <= len(e.args) <= 2 and isinstance(e.args[0], ast.Constant):
+            base = ev(e.func.value)
+            if isinstance(base, dict):
+                if e.args[0].value in base:
+                    return base[e.args[0].value]
+                raise _Unknown("key of the metadata dict that the template facts do not fix")
+        if isinstance(e.func, ast.Attribute) and e.func.attr in ("lower", "upper", "strip", "casefold") and not e.args:
+            base = ev(e.func.value)
+            if isinstance(base, str):
+                return getattr(base, e.func.attr)()
+        if isinstance(e.func, ast.Attribute) and e.func.attr in ("startswith", "endswith") and len(e.args) == 1:
+            base, arg = ev(e.func.value), ev(e.args[0])
+            if isinstance(base, str) and isinstance(arg, (str, tuple)):
+                return getattr(base, e.func.attr)(arg)
+        raise _Unknown(f"call {ast.unparse(e)[:60]}")
+    raise _Unknown(type(e).__name__)
+
+
+def _returns_no_diagnostic(body: List[ast.stmt]) -> bool:
+    if len(body) != 1 or not isinstance(body[0], ast.Return):
+        return False
+    v = body[0].value
+    return v is None or (isinstance(v, (ast.List, ast.Tuple)) and not v.elts) or (isinstance(v, ast.Constant) and v.value is None) or (isinstance(v, ast.Call) and call_name(v) in ("list", "tuple") and not v.args)
+
+
+def rule_applies(fn: ast.AST, anchor_const: str, env: Dict[str, object]) -> Tuple[Optional[bool], List[str]]:
+    """Does the catalogue rule *fn* (normal form) reach the statement that inspects the attribute named *anchor_const*
+    for a class with the abstract facts *env*?  (True / False / None = undecided, the tests that were evaluated)."""
+    seen: List[str] = []
+
+    def mentions(st: ast.AST) -> bool:
+        return any(isinstance(c, ast.Constant) and c.value == anchor_const for c in ast.walk(st)) or any(isinstance(a, ast.Attribute) and a.attr == anchor_const for a in ast.walk(st))
+
+    def decide(test: ast.AST) -> Optional[bool]:
+        try:
+            val: Optional[bool] = bool(abs_eval(test, env, fn))
+        except _Unknown as u:
+            seen.append(f"`{norm(test, 120)}` (undecided: {u})")
+            return None
+        seen.append(f"`{norm(test, 120)}` is {val}")
+        return val
+
+    def block(stmts: List[ast.stmt]) -> Optional[bool]:
+        undecided = False
+        for st in stmts:
+            if isinstance(st, ast.If) and not mentions(st.test):
+                in_body = any(mentions(x) for x in st.body)
+                in_else = any(mentions(x) for x in st.orelse)
+                if _returns_no_diagnostic(st.body) and not in_else:
+                    # early exit: `if <not applicable>: return []`
+                    val = decide(st.test)
+                    if val is True:
+                        return False
+                    undecided = undecided or val is None
+                    continue
+                if _returns_no_diagnostic(st.orelse) and not in_body and st.orelse:
+                    val = decide(st.test)
+                    if val is False:
+                        return False
+                    undecided = undecided or val is None
+                    continue
+                if in_body or in_else:
+                    val = decide(st.test)
+                    if val is None:
+                        return None
+                    inner = st.body if val else st.orelse
+                    if any(mentions(x) for x in inner):
+                        res = block(inner)
+                        return None if (undecided and res) else res
+                    continue
+                continue
+            if mentions(st):
+                return None if undecided else True
+        return False
+
+    return block(list(fn.body)), seen  # type: ignore[attr-defined]
+
+
+def _class_by_name(repo: Repo, name: str):
+    hits = [(m, c) for m, q, c in repo.all_classes() if q == name and not m.rel.startswith(("semantiva/examples/", "tests/"))]
+    return hits[0] if len(hits) == 1 else None
+
+
+def declared_component_type(repo: Repo, name: str) -> Optional[str]:
+    """The `component_type` literal that class *name* (or the nearest base that has one) writes in _define_metadata."""
+    hit = _class_by_name(repo, name)
+    if hit is None:
+        return None
+    for m, c in repo.mro(*hit):
+        dm = next((st for st in c.body if isinstance(st, FuncNode) and st.name == "_define_metadata"), None)
+        if dm is None:
+            continue
+        for d in ast.walk(dm):
+            if isinstance(d, ast.Dict):
+                for k, v in zip(d.keys, d.values):
+                    if isinstance(k, ast.Constant) and k.value == "component_type" and isinstance(v, ast.Constant):
+                        return v.value
+            if isinstance(d, ast.Assign) and any(isinstance(t, ast.Subscript) and isinstance(t.slice, ast.Constant) and t.slice.value == "component_type" for t in d.targets) and isinstance(d.value, ast.Constant):
+                return d.value.value
+    return None
+
+
+def mro_names(repo: Repo, base_names: List[str]) -> List[str]:
+    out: List[str] = []
+    for b in base_names:
+        hit = _class_by_name(repo, b.split(".")[-1])
+        names = [c.name for _m, c in repo.mro(*hit)] if hit else [b.split(".")[-1]]
+        out.extend(n for n in names if n not in out)
+    return out
+
+
+def _flow_in(scope: ast.AST, expr: Optional[ast.AST], _seen: Optional[Set[str]] = None) -> List[ast.AST]:
+    """Backward slice of *expr* through plain assignments anywhere in *scope* (a factory function with branch-local
+    definitions: every assignment to the name counts)."""
+    if expr is None:
+        return []
+    _seen = _seen if _seen is not None else set()
+    out = list(ast.walk(expr))
+    for nm in sorted({x.id for x in out if isinstance(x, ast.Name)}):
+        if nm in _seen:
+            continue
+        _seen.add(nm)
+        for v in assigned_value(scope, nm):
+            out.extend(_flow_in(scope, v, _seen))
+    return out
+
+
+def _local_flow(stmt: ast.AST, expr: ast.AST, scope: ast.AST) -> List[ast.AST]:
+    """Like _flow_in, but a name assigned in the block that holds *stmt* (or an enclosing one) is read from the nearest
+    such block only - the four branches of the IO factory each bind `new_sig` / `source_params`."""
+    out: List[ast.AST] = []
+    seen: Set[str] = set()
+    todo: List[ast.AST] = [expr]
+    while todo:
+        x = todo.pop()
+        nodes = list(ast.walk(x))
+        out.extend(nodes)
+        for nm in sorted({n.id for n in nodes if isinstance(n, ast.Name)}):
+            if nm in seen:
+                continue
+            seen.add(nm)
+            child: ast.AST = stmt
+            found: List[ast.AST] = []
+            for a in ancestors(stmt):
+                for fld in ("body", "orelse", "finalbody"):
+                    blk = getattr(a, fld, None)
+                    if isinstance(blk, list) and any(b is child for b in blk):
+                        for b in blk:
+                            if isinstance(b, ast.Assign) and any(isinstance(t, ast.Name) and t.id == nm for t in b.targets):
+                                found.append(b.value)
+                            elif isinstance(b, ast.AnnAssign) and isinstance(b.target, ast.Name) and b.target.id == nm and b.value is not None:
+                                found.append(b.value)
+                if found or a is scope:
+                    break
+                child = a
+            todo.extend(found if found else assigned_value(scope, nm))
+    return out
+
+
+PROVIDERS = ("get_created_keys", "injected_context_keys", "context_keys")
+_DROPPING_METHODS = ("difference", "intersection", "symmetric_difference", "remove", "discard", "pop", "clear", "difference_update", "intersection_update")
+
+
+def provider_reads(nodes: List[ast.AST]) -> List[ast.Call]:
+    """Calls `<X>.<provider>()` / `getattr(<X>, "<provider>", ...)()` among *nodes*."""
+    out = []
+    for n in nodes:
+        if not isinstance(n, ast.Call):
+            continue
+        if isinstance(n.func, ast.Attribute) and n.func.attr in PROVIDERS:
+            out.append(n)
+        elif isinstance(n.func, ast.Call) and isinstance(n.func.func, ast.Name) and n.func.func.id == "getattr" and len(n.func.args) >= 2 and isinstance(n.func.args[1], ast.Constant) and n.func.args[1].value in PROVIDERS:
+            out.append(n)
+    return out
+
+
+def dropped_on_the_way(read: ast.AST, top: ast.AST) -> Optional[str]:
+    """The construct between the provider call *read* and the statement / lambda *top* that can drop elements of the
+    sequence (a comprehension condition, a set difference, filter(), a slice), or None."""
+    child: ast.AST = read
+    for a in ancestors(read):
+        if isinstance(a, ast.comprehension) and child is a.iter and a.ifs:
+            return "if " + " if ".join(norm(c, 80) for c in a.ifs)
+        if isinstance(a, (ast.ListComp, ast.SetComp, ast.GeneratorExp)) and len(a.generators) == 1 and child is a.generators[0] and a.generators[0].ifs and any(x is read for x in ast.walk(a.generators[0].iter)):
+            return "if " + " if ".join(norm(c, 80) for c in a.generators[0].ifs)
+        if isinstance(a, ast.BinOp) and isinstance(a.op, (ast.Sub, ast.BitAnd, ast.BitXor)):
+            return norm(a, 100)
+        if isinstance(a, ast.Call) and a is not read and ((isinstance(a.func, ast.Name) and a.func.id == "filter") or (isinstance(a.func, ast.Attribute) and a.func.attr in _DROPPING_METHODS and a.func is child)):
+            return norm(a, 100)
+        if isinstance(a, ast.Subscript) and child is a.value and isinstance(a.slice, ast.Slice):
+            return norm(a, 100)
+        if a is top or isinstance(a, ast.stmt):
+            break
+        child = a
+    return None
+
+
+def mirrored_unfiltered(repo: Repo, rel: str, f: ast.AST) -> Tuple[int, List[Tuple[str, int]]]:
+    """(number of wrapped-provider reads that flow into a return of the key provider *f*, [(dropping construct, line)])."""
+    bad: List[Tuple[str, int]] = []
+    n_reads = 0
+    if isinstance(f, ast.Lambda):
+        for rd in provider_reads(list(ast.walk(f.body))):
+            n_reads += 1
+            d = dropped_on_the_way(rd, f)
+            if d:
+                bad.append((d, rd.lineno))
+        return n_reads, bad
+    nf = normalize(repo, repo.module(rel), f, copyprop="all", loops=True)
+    _attach_parents(nf)
+    for r in walk_no_nested(nf):
+        if not isinstance(r, ast.Return) or r.value is None:
+            continue
+        nodes = _flow(nf, r.value)
+        reads = provider_reads(nodes)
+        for rd in reads:
+            n_reads += 1
+            d = dropped_on_the_way(rd, nf)
+            if d:
+                bad.append((d, getattr(rd, "lineno", f.lineno)))
+        for rd in reads:
+            # the sequence drives a loop that adds its elements one by one: a guard / continue / break in the body skips some
+            loop = stmt_of(rd)
+            if isinstance(loop, (ast.For, ast.AsyncFor)) and any(x is rd for x in ast.walk(loop.iter)):
+                skip = next((x for b in loop.body for x in ast.walk(b) if isinstance(x, (ast.If, ast.Continue, ast.Break))), None)
+                if skip is not None:
+                    bad.append((norm(skip.test, 80) if isinstance(skip, ast.If) else norm(skip, 80), getattr(skip, "lineno", f.lineno)))
+        if reads:
+            # a local that holds the mirrored sequence and loses elements before it is returned
+            held = {t.id for st in walk_no_nested(nf) if isinstance(st, ast.Assign) and provider_reads(list(ast.walk(st.value))) for t in st.targets if isinstance(t, ast.Name)}
+            for st in walk_no_nested(nf):
+                if isinstance(st, ast.Call) and isinstance(st.func, ast.Attribute) and st.func.attr in _DROPPING_METHODS and isinstance(st.func.value, ast.Name) and st.func.value.id in held:
+                    bad.append((norm(st, 100), st.lineno))
+                if isinstance(st, ast.Delete) and any(isinstance(t, ast.Subscript) and isinstance(t.value, ast.Name) and t.value.id in held for t in st.targets):
+                    bad.append((norm(st, 100), st.lineno))
+    return n_reads, bad
+
+
+# --------------------------------------------------------------------------- round 3: declared types vs accessors
+class _ExpandAccessors(ast.NodeTransformer):
+    """Replace `cls.input_data_type()` / `cls.output_data_type()` by what the class's own accessor returns."""
+
+    def __init__(self, returns: Dict[str, ast.AST]):
+        self.returns = returns
+        self.changed = False
+
+    def visit_Call(self, node: ast.Call):
+        self.generic_visit(node)
+        if not node.args and not node.keywords and isinstance(node.func, ast.Attribute) and isinstance(node.func.value, ast.Name) and node.func.value.id == "cls" and node.func.attr in self.returns:
+            self.changed = True
+            return clone(self.returns[node.func.attr])
+        return node
+
+
+def expand_accessors(e: ast.AST, returns: Dict[str, ast.AST]) -> str:
+    cur = clone(e)
+    for _ in range(4):
+        tr = _ExpandAccessors(returns)
+        wrapped = ast.Expression(body=cur)
+        wrapped = tr.visit(wrapped)
+        cur = wrapped.body
+        if not tr.changed:
+            break
+    return ast.unparse(cur)
+
+
+def _type_of_entry(v: ast.AST) -> ast.AST:
+    """The type expression behind a metadata entry: `T.__name__`, `getattr(T, "__name__", ..)`, `str(..)`, or the literal
+    name of a type."""
+    while True:
+        if isinstance(v, ast.Attribute) and v.attr in ("__name__", "__qualname__"):
+            v = v.value
+        elif isinstance(v, ast.Call) and isinstance(v.func, ast.Name) and v.func.id == "getattr" and len(v.args) >= 2 and isinstance(v.args[1], ast.Constant) and v.args[1].value in ("__name__", "__qualname__"):
+            v = v.args[0]
+        elif isinstance(v, ast.Call) and isinstance(v.func, ast.Name) and v.func.id == "str" and len(v.args) == 1:
+            v = v.args[0]
+        else:
+            break
+    if isinstance(v, ast.Constant) and isinstance(v.value, str) and v.value.isidentifier():
+        return ast.Name(id=v.value, ctx=ast.Load())
+    return v
+
+
+def metadata_entries(f: ast.AST, key: str) -> List[Tuple[ast.AST, ast.AST]]:
+    """(value, statement) of every write of metadata entry *key* in *f*: dict displays, `d[key] = v`, `dict(key=v)`,
+    `d.update(key=v)`."""
+    out: List[Tuple[ast.AST, ast.AST]] = []
+    for n in walk_no_nested(f):
+        if isinstance(n, ast.Dict):
+            for k, v in zip(n.keys, n.values):
+                if isinstance(k, ast.Constant) and k.value == key:
+                    out.append((v, n))
+        elif isinstance(n, ast.Assign) and any(isinstance(t, ast.Subscript) and isinstance(t.slice, ast.Constant) and t.slice.value == key for t in n.targets):
+            out.append((n.value, n))
+        elif isinstance(n, ast.Call) and (call_name(n) == "dict" or call_attr(n) in ("update", "setdefault")):
+            for kw in n.keywords:
+                if kw.arg == key:
+                    out.append((kw.value, n))
+            if call_attr(n) == "setdefault" and len(n.args) == 2 and isinstance(n.args[0], ast.Constant) and n.args[0].value == key:
+                out.append((n.args[1], n))
+    return out
+
+
+def _calls_parent_metadata(f: ast.AST) -> bool:
+    return any(isinstance(c, ast.Call) and isinstance(c.func, ast.Attribute) and c.func.attr == "_define_metadata" and isinstance(c.func.value, ast.Call) and isinstance(c.func.value.func, ast.Name) and c.func.value.func.id == "super" for c in walk_no_nested(f))
+
+
 def run(repo: Repo, R: Report) -> None:
     R.assume(
         "inspect.getattr_static(cls, name) sees a classmethod object exactly when the template binds the name to classmethod(...) / @classmethod (directly or by inheritance from a base that does)",
@@ -563,3 +1028,158 @@ def run(repo: Repo, R: Report) -> None:
     R.check(not keyed_by_name and ".add(cls)" in txt or ".append(cls)" in txt, r_reg, COMP, "_SemantivaComponentMeta.__init__", "registry.setdefault(component_type, <set>).add(cls)", "classes are registered under their (shared) qualified name: generated classes with the same name evict each other and fail SVA107", mi.lineno)
     rc = repo.func(EXP, "_r_registry_coherence")
     R.check("get_component_registry()" in ast.unparse(rc) and "cls not in" in ast.unparse(rc), r_reg, EXP, "_r_registry_coherence", "membership test against get_component_registry()", "the coherence rule no longer consults the registry", rc.lineno)
+
+    _round3(repo, R, tmpl)
+
+
+def _round3(repo: Repo, R: Report, tmpl) -> None:
+    nodes_mod = repo.module(NODES)
+
+    # ------------------------------------------------------------------ SVA250 must not reach adapters that mirror a source/sink signature
+    r_app = R.rule("C16-D1-sva250-exempts-mirrored-signature", "a generated class whose `_process_logic.__signature__` mirrors a method of the wrapped IO class (whose `context` parameter the framework supports and forwards) is outside the applicability test of SVA250 in the catalogue: evaluated on the template's facts (component_type it declares, names along its MRO), one of the rule's early exits is taken", 2)
+    sva_src = repo.func(EXP, "_r_process_logic_no_context")
+    sva = normalize(repo, repo.module(EXP), sva_src, copyprop="all")
+    _attach_parents(sva)
+    sva_params = _params(sva)
+    if len(sva_params) < 2:
+        raise AnalysisError("SVA250 rule function no longer takes (cls, metadata)")
+    for rel, tname, attrs, bases, site in tmpl:
+        if "_process_logic" not in attrs:
+            continue
+        factory = enclosing_function(site)
+        if factory is None:
+            continue
+        members = member_functions(repo, rel, attrs, site)
+        pl_names = {f.name for a, f, _b in members if a == "_process_logic" and isinstance(f, FuncNode)}
+        fparams = set(_params(factory))
+        attach: List[Tuple[ast.AST, ast.AST]] = []
+        for n in ast.walk(factory):
+            if isinstance(n, ast.Call) and call_name(n) == "setattr" and len(n.args) == 3 and isinstance(n.args[0], ast.Name) and n.args[0].id in pl_names and isinstance(n.args[1], ast.Constant) and n.args[1].value == "__signature__":
+                attach.append((stmt_of(n), n.args[2]))
+            elif isinstance(n, ast.Assign) and any(isinstance(t, ast.Attribute) and t.attr == "__signature__" and isinstance(t.value, ast.Name) and t.value.id in pl_names for t in n.targets):
+                attach.append((n, n.value))
+        if not attach:
+            continue
+        # does the template keep the wrapped class's component_type?
+        preserved = False
+        for a, f, _b in members:
+            if a != "_define_metadata" or not isinstance(f, FuncNode):
+                continue
+            for v, _st in metadata_entries(f, "component_type"):
+                for x in _flow_in(f, v):
+                    if isinstance(x, ast.Call) and isinstance(x.func, ast.Attribute) and x.func.attr in ("get_metadata", "_define_metadata") and (dotted_name(x.func.value) or "").split(".")[0] in fparams:
+                        preserved = True
+        own_ctype = next((t for t in (declared_component_type(repo, b.split(".")[-1]) for b in bases) if t), None)
+        names = ["<generated>"] + mro_names(repo, bases)
+        for st, sig_expr in attach:
+            flow = _local_flow(st, sig_expr, factory)
+            mirrored = [c for c in flow if isinstance(c, ast.Call) and call_name(c) in ("inspect.signature", "signature") and c.args and isinstance(c.args[0], ast.Attribute) and (dotted_name(c.args[0]) or "").split(".")[0] in fparams]
+            if not mirrored:
+                continue
+            excluded = {c.value for g in flow if isinstance(g, ast.comprehension) for t in g.ifs for c in ast.walk(t) if isinstance(c, ast.Constant) and isinstance(c.value, str)}
+            method = mirrored[0].args[0].attr  # type: ignore[attr-defined]
+            if "context" in excluded:
+                R.ok(r_app, rel, tname, f"signature of {method} mirrored without `context`")
+                continue
+            kinds: List[str] = []
+            child: ast.AST = st
+            for a in ancestors(st):
+                if isinstance(a, ast.If) and any(b is child for b in a.body) and isinstance(a.test, ast.Call) and call_name(a.test) == "issubclass" and len(a.test.args) == 2 and (dotted_name(a.test.args[0]) or "") in fparams:
+                    k = a.test.args[1]
+                    kinds = [dotted_name(x) or "?" for x in (k.elts if isinstance(k, ast.Tuple) else [k])]
+                    break
+                if a is factory:
+                    break
+                child = a
+            if not kinds:
+                kinds = sorted({dotted_name(x) or "?" for c in ast.walk(factory) if isinstance(c, ast.Call) and call_name(c) == "issubclass" and len(c.args) == 2 for x in (c.args[1].elts if isinstance(c.args[1], ast.Tuple) else [c.args[1]])})
+            for kind in kinds:
+                ctype = declared_component_type(repo, kind.split(".")[-1]) if preserved else own_ctype
+                if ctype is None:
+                    raise AnalysisError(f"component_type of `{kind}` (wrapped by {rel}:{tname}) not found")
+                env = {sva_params[0]: _AbsClass(names), sva_params[1]: {"component_type": ctype}}
+                applies, seen = rule_applies(sva, "_process_logic", env)
+                if applies is None:
+                    raise AnalysisError(f"cannot decide whether SVA250 applies to the {kind} adapter of {rel}:{tname}: " + "; ".join(seen))
+                R.check(applies is False, r_app, rel, f"{tname} [{kind}]", f"setattr(_process_logic, '__signature__', <signature of {kind}.{method}>)",
+                        f"the adapter generated for a {kind} is a {'/'.join(bases)} subclass that declares component_type `{ctype}` and publishes the parameters of `{kind}.{method}` as the signature of `_process_logic`; the wrapped method may take `context` (for sources the factory forwards the observer context to it), but `{EXP}:_r_process_logic_no_context` applies SVA250 to this class ({'; '.join(seen)}): the generated processor class of every such configuration gets an error-level diagnostic", getattr(st, "lineno", 0))
+
+    # ------------------------------------------------------------------ declared types == what the accessors answer
+    r_decl = R.rule("C16-D2-declared-types-match-accessors", "for every node class, the `input_data_type` / `output_data_type` entries that its (own or inherited, super()-chained) `_define_metadata` writes denote the same type as the class's own `input_data_type()` / `output_data_type()` accessors: the entry calls the accessor on `cls`, or spells the expression the accessor of *this* class returns", 10)
+    node_classes = [(qn, c) for qn, c in sorted(nodes_mod.defs.items()) if isinstance(c, ast.ClassDef) and "." not in qn]
+    for cname, cnode in node_classes:
+        returns: Dict[str, ast.AST] = {}
+        for acc in ("input_data_type", "output_data_type"):
+            owner = repo.method(nodes_mod, cnode, acc)
+            if owner is None or owner[0].rel != NODES:
+                continue
+            f = node_method(repo, qualname_of(owner[1]))
+            rets = [n.value for n in walk_no_nested(f) if isinstance(n, ast.Return) and n.value is not None]
+            if len(rets) == 1:
+                returns[acc] = rets[0]
+        if not returns:
+            continue
+        # the chain of _define_metadata functions whose writes end up in this class's metadata, most derived first
+        chain: List[Tuple[str, ast.AST]] = []
+        mro = repo.mro(nodes_mod, cnode)
+        for i, (m, c) in enumerate(mro):
+            if m.rel != NODES:
+                break
+            dm = next((st for st in c.body if isinstance(st, FuncNode) and st.name == "_define_metadata"), None)
+            if dm is None:
+                continue
+            chain.append((c.name, dm))
+            if not _calls_parent_metadata(dm):
+                break
+        for key in ("input_data_type", "output_data_type"):
+            if key not in returns:
+                continue
+            for owner_name, dm in chain:
+                f = node_method(repo, f"{owner_name}._define_metadata")
+                entries = metadata_entries(f, key)
+                if not entries:
+                    continue
+                want = expand_accessors(ast.parse(f"cls.{key}()", mode="eval").body, returns)
+                for v, st in entries:
+                    got = expand_accessors(_type_of_entry(v), returns)
+                    where = f"{cname}._define_metadata" if owner_name == cname else f"{cname}._define_metadata (from {owner_name})"
+                    R.check(got == want, r_decl, NODES, where, f"metadata['{key}'] = {norm(v, 80)}",
+                            f"generated `{cname}` classes declare {key} `{got}` in their metadata while `{cname}.{key}()` - what the pipeline type check and the node itself use - answers `{want}`: the declared types of the node wrapper do not mirror its contract whenever the two differ (an operation whose output type is not its input type)", getattr(st, "lineno", 0) or dm.lineno)
+                break  # the most derived writer wins
+
+    # ------------------------------------------------------------------ adapters hand the wrapped class's keys on, unfiltered
+    r_unf = R.rule("C16-D3-adapter-keys-unfiltered", "a key provider of a generated class (get_created_keys / context_keys / injected_context_keys) that is computed from the wrapped class's provider hands that sequence on without dropping elements; where the factory tests that the wrapped class has the provider, the generated method reads it", 3)
+    providers: List[Tuple[str, str, str, ast.AST]] = []
+    for rel, tname, attrs, bases, site in tmpl:
+        for attr, f, _b in member_functions(repo, rel, attrs, site):
+            if attr in PROVIDERS:
+                providers.append((rel, tname, attr, f))
+    # class attributes handed to _create_class(...) by the node factory
+    for mod in repo.modules.values():
+        if mod.rel.startswith(("semantiva/examples/", "semantiva/contracts/")):
+            continue
+        for c in [n for n in ast.walk(mod.tree) if isinstance(n, ast.Call) and call_attr(n) == "_create_class"]:
+            for kw in c.keywords:
+                if kw.arg in PROVIDERS:
+                    fake = {kw.arg: (kw.value, False)}
+                    encl = enclosing_function(c)
+                    for attr, f, _b in member_functions(repo, mod.rel, fake, c):
+                        providers.append((mod.rel, f"{qualname_of(encl) if encl is not None else '?'} -> _create_class(...)", attr, f))
+    for rel, tname, attr, f in providers:
+        n_reads, bad = mirrored_unfiltered(repo, rel, f)
+        if not n_reads:
+            continue
+        repo.consulted.add(rel)
+        R.check(not bad, r_unf, rel, f"{tname}.{attr}", f"{attr} hands the wrapped provider's keys on",
+                f"`{attr}` of the generated class drops elements of the wrapped class's keys ({bad[0][0] if bad else ''}): the adapter declares fewer created keys than the class it adapts, and than the node class built over the raw class - created keys of node and generated processor no longer mirror each other", bad[0][1] if bad else getattr(f, "lineno", 0))
+    for rel, tname, attrs, bases, site in tmpl:
+        factory = enclosing_function(site)
+        if factory is None:
+            continue
+        member_defs = {id(f): a for a, f, _b in member_functions(repo, rel, attrs, site)}
+        for n in ast.walk(factory):
+            if isinstance(n, ast.If) and isinstance(n.test, ast.Call) and call_name(n.test) == "hasattr" and len(n.test.args) == 2 and isinstance(n.test.args[1], ast.Constant) and n.test.args[1].value in PROVIDERS:
+                for d in n.body:
+                    if isinstance(d, FuncNode) and member_defs.get(id(d)) in PROVIDERS:
+                        n_reads, _bad = mirrored_unfiltered(repo, rel, d)
+                        R.check(n_reads > 0, r_unf, rel, f"{tname}.{member_defs[id(d)]}", f"under `{norm(n.test, 80)}` the generated method reads the wrapped provider", f"the factory found `{n.test.args[1].value}` on the wrapped class but the generated `{member_defs[id(d)]}` does not return it: the adapter's created keys do not mirror the class it adapts", d.lineno)
